@@ -274,6 +274,15 @@ def ev_aliasing(case):
                         ch.get_sample(burn=burn, thin=thin), ch.get_probabilities(burn=burn, thin=thin)
                         [ch.get_parameter(i, burn=burn, thin=thin) for i in range(d)]
                         ch.get_interval(interval=0.9, burn=burn, thin=thin)
+            elif op == "marginal":
+                # derived read-outs (a density estimate of one parameter) are read-outs too: building one must leave the chain alone
+                for burn, thin in ((0, 1), (1, 2)):
+                    for i in range(d):
+                        try:
+                            ch.get_marginal(i, burn=burn, thin=thin)
+                            tags.add("aliasing:marginal-built")
+                        except Exception as e:  # an estimate from one or two points may be refused; not this property's concern
+                            tags.add(f"aliasing:marginal-refused:{type(e).__name__}")
             elif op == "replace" and kind != "EnsembleSampler":
                 new = FS[-1] + 0.25
                 with lib("replace_last"):
@@ -335,7 +344,7 @@ def run(ck):
     ck.run_cases("interval", ic)
     import itertools as _it
 
-    orders = [list(o) for L in (1, 2, 3) for o in _it.product(("read", "replace", "step"), repeat=L)]
+    orders = [list(o) for L in (1, 2, 3) for o in _it.product(("read", "replace", "step", "marginal"), repeat=L)]
     ck.run_cases("aliasing", [dict(sampler=kind, d=d, n=n, seed=9 + ck.seed, orders=orders) for kind in SAMPLERS for d in (1, 2) for n in ((3, 6) if q else (2, 3, 6, 9))])
     ck.rule = ("every (burn, thin) in [0,N+1]x[1,N+1] for every chain length N (reached by real stepping, and via save/load) per sampler and dimension; "
                "get_interval for 5 fractions x samples in {None,1..N+2} x all outcomes of the scripted permutation. Distinct non-trivial = (sampler, retained 0/1/many, loaded) and interval modes")
